@@ -704,6 +704,53 @@ def rule_shape_coverage(ctx, rep, cfgs):
 
 
 # ------------------------------------------------------------------------------------------------
+# small scope (thorough tier): the bounded-exhaustive family of corpus/gen_enum.py
+# ------------------------------------------------------------------------------------------------
+
+ENUM_CFGS = ['tail-enum', 'sm-enum']
+
+
+def smallscope(ctx, rep, **want):
+    """thorough tier only.  Runs the named rule families once more over every member of the bounded-exhaustive family
+    (every definition of the shapes listed in corpus/gen_enum.py over a two-letter alphabet, both back ends).  The rule
+    ids are shared with the corpus run: instances and violations accumulate under the same rule."""
+    if ctx.tier != 'thorough':
+        return
+    cfgs = ENUM_CFGS
+    rid = rep.rule('G22', 'small scope: every member of the bounded-exhaustive family of corpus/gen_enum.py (all non-nullable sequences of <= 3 quantified letters alone, all unordered pairs of sequences of <= 2, with and without a trailing look-ahead, str and byte mode, as skip pattern) is accepted by the derive and lies inside the analysable subset; the rule families named by the property run on each of them', floor=5000)
+    for cfg in cfgs:
+        n = 0
+        for d, m, s in models(ctx, cfg):
+            n += 1
+            rep.inst(rid, '%s:%s' % (cfg, dkey(d)), trivial=True)
+            if d.rejected:
+                rep.viol(rid, 'rejected:%s:%s' % (d.backend, dkey(d)), 'small-scope definition %s is rejected by the derive although all its priorities are distinct' % d.name, d.name)
+            elif m is None:
+                rep.viol(rid, 'unsupported:%s:%s' % (d.backend, dkey(d)), 'generated code of %s is outside the analysable subset: %s' % (d.name, d.error), d.name)
+        rep.analysed.setdefault('definitions', {})[cfg] = n
+    if want.get('automata'):
+        rule_automata(ctx, rep, cfgs, want=want['automata'])
+    if want.get('backends'):
+        rule_backends(ctx, rep, (cfgs[0], cfgs[1]))
+    if want.get('transitions'):
+        rule_transitions(ctx, rep, cfgs, want=want['transitions'])
+    if want.get('graph'):
+        rule_graph(ctx, rep, cfgs, want=want['graph'])
+    if want.get('records'):
+        rule_records(ctx, rep, cfgs, want=want['records'])
+    if want.get('partial'):
+        rule_partial(ctx, rep, cfgs)
+    if want.get('promptness'):
+        rule_promptness(ctx, rep, cfgs)
+    if want.get('fast_loops'):
+        rule_fast_loops(ctx, rep, cfgs)
+    if want.get('error_action'):
+        rule_error_action(ctx, rep, cfgs)
+    if want.get('action_dispatch'):
+        rule_action_dispatch(ctx, rep, cfgs)
+
+
+# ------------------------------------------------------------------------------------------------
 # property bundles
 # ------------------------------------------------------------------------------------------------
 
@@ -714,6 +761,7 @@ def rules_c01(ctx, rep):
     if ctx.tier == 'thorough':
         rule_debug_neutral(ctx, rep, cfgs)
     rule_shape_coverage(ctx, rep, cfgs)
+    smallscope(ctx, rep, automata=('G19', 'G20'))
     controls(ctx, rep, ['G19', 'G20'])
 
 
@@ -727,6 +775,7 @@ def rules_c02(ctx, rep):
     rule_expect_late(ctx, rep, cfgs)
     rule_twins(ctx, rep, cfgs, 'G14-C02', 'de-duplication twins: a spelling whose DFA has equivalent states that de-duplication merges (merging their byte classes) generates exactly the lexer of the spelling without duplicate states: merging adds no byte to any edge', 'twins_dedup::', floor=2)
     rule_shape_coverage(ctx, rep, cfgs)
+    smallscope(ctx, rep, automata=('G19', 'G20'), error_action=True, graph=('G6b',), transitions=('G2',))
     controls(ctx, rep, ['G6a', 'G2'])
 
 
@@ -740,6 +789,7 @@ def rules_c03(ctx, rep):
     rule_records(ctx, rep, cfgs, want=('G10',))
     rule_action_dispatch(ctx, rep, cfgs)
     rule_shape_coverage(ctx, rep, cfgs)
+    smallscope(ctx, rep, automata=('G19', 'G20'), transitions=('G1',), graph=('G3', 'G4'), fast_loops=True, records=('G10',), action_dispatch=True)
     controls(ctx, rep, ['G1', 'G4', 'G9c', 'G10', 'G11'])
 
 
@@ -752,6 +802,7 @@ def rules_c04(ctx, rep):
     rule_transitions(ctx, rep, cfgs, want=('G1',))
     rule_records(ctx, rep, cfgs, want=('G10', 'G7c'))
     rule_error_action(ctx, rep, cfgs)
+    smallscope(ctx, rep, automata=('G19', 'G20'), transitions=('G1',), records=('G10', 'G7c'), error_action=True)
     controls(ctx, rep, ['G1', 'G10', 'G6a'])
 
 
@@ -799,6 +850,7 @@ def rules_c06(ctx, rep):
     rule_automata(ctx, rep, cfgs)
     extra = dict(rep.extra)
     rule_shape_coverage(ctx, rep, cfgs)
+    smallscope(ctx, rep, backends=True, automata=('G19', 'G20'))
     controls(ctx, rep, ['G8'])
     rep.extra.update(extra)
 
@@ -811,6 +863,7 @@ def rules_c07(ctx, rep):
     rule_promptness(ctx, rep, cfgs)
     rule_graph(ctx, rep, cfgs, want=('G6b', 'G3'))
     rule_shape_coverage(ctx, rep, cfgs)
+    smallscope(ctx, rep, automata=('G20',), partial=True, promptness=True, graph=('G6b', 'G3'))
     controls(ctx, rep, ['G5'])
 
 
@@ -821,6 +874,7 @@ def rules_c13(ctx, rep):
     rule_action_dispatch(ctx, rep, cfgs)
     rule_leaf_arms(ctx, rep, cfgs)
     rule_records(ctx, rep, cfgs, want=('G10',))
+    smallscope(ctx, rep, automata=('G19', 'G20'), action_dispatch=True, records=('G10',))
     controls(ctx, rep, ['G9c', 'G10'])
 
 
@@ -832,6 +886,7 @@ def rules_c20(ctx, rep):
     rule_fast_loops(ctx, rep, cfgs)
     rule_graph(ctx, rep, cfgs, want=('G3', 'G6b'))      # no end-of-input cycle (unbounded reads), no walk beyond the decision
     rule_shape_coverage(ctx, rep, cfgs)
+    smallscope(ctx, rep, automata=('G19', 'G20'), transitions=('G1', 'G2', 'G12'), fast_loops=True, graph=('G3', 'G6b'))
     controls(ctx, rep, ['G1', 'G2', 'G11'])
 
 
